@@ -90,7 +90,7 @@ func genC04(rng *rand.Rand, tier string) *core.Plan {
 		case r < 45:
 			p.Ops = append(p.Ops, core.Op{K: "flush", T: fam, A: int64(1 + rng.Intn(2)), B: int64(1 + rng.Intn(4)), C: int64(rng.Intn(4)), S: fmt.Sprint(rng.Intn(1 << 30))})
 		case r < 70:
-			p.Ops = append(p.Ops, core.Op{K: "rollup"})
+			p.Ops = append(p.Ops, core.Op{K: "rollup", B: int64(rng.Intn(2))}) // B = 1: a flush that follows is issued while the jobs run
 		case r < 78:
 			p.Ops = append(p.Ops, core.Op{K: "rollup2", A: int64(rng.Intn(2))}) // two triggers back to back (a=1: from two goroutines at once)
 		case r < 86:
@@ -433,37 +433,43 @@ func runC04(c *core.RunCtx) {
 				h.awaitIdle()
 				h.check("after restart + rollup")
 			}
+			doFlush := func(fop core.Op) bool {
+				hour := hours[fop.T%3]
+				di := (fop.T / 3) % len(h.days)
+				f, err := h.srcFamily(di, hour)
+				if err != nil {
+					c.Anomaly("source family: %v", err)
+					return false
+				}
+				fc := genFile(fop, h.nMetrics, 360)
+				if err := writeFile(f, fc); err != nil {
+					c.Anomaly("write file: %v", err)
+					return false
+				}
+				famStart := h.dayStartOf(h.days[di]) + int64(hour)*hourMs
+				h.files++
+				for _, t := range h.targets {
+					if !t.accepts(h.days[di]) {
+						continue
+					}
+					tt := t
+					fileNo := h.files
+					h.models[t.key()].addFile(fc, func(_ uint32, s uint16) int { return slotKey(tt.famStart, tt.interval, famStart+int64(s)*srcInterval) },
+						func(k cellKey, v float64, s uint16) {
+							ok := originKey{tt.interval, k}
+							h.origins[ok] = append(h.origins[ok], origin{epoch: h.epoch, file: fileNo, at: famStart + int64(s)*srcInterval, v: v})
+						})
+				}
+				return true
+			}
 			for next < len(c.Plan.Ops) && !c.Violated() {
 				op := c.Plan.Ops[next]
 				next++
 				sim.Event("op %s", op.String())
 				switch op.K {
 				case "flush":
-					hour := hours[op.T%3]
-					di := (op.T / 3) % len(h.days)
-					f, err := h.srcFamily(di, hour)
-					if err != nil {
-						c.Anomaly("source family: %v", err)
+					if !doFlush(op) {
 						return
-					}
-					fc := genFile(op, h.nMetrics, 360)
-					if err := writeFile(f, fc); err != nil {
-						c.Anomaly("write file: %v", err)
-						return
-					}
-					famStart := h.dayStartOf(h.days[di]) + int64(hour)*hourMs
-					h.files++
-					for _, t := range h.targets {
-						if !t.accepts(h.days[di]) {
-							continue
-						}
-						tt := t
-						fileNo := h.files
-						h.models[t.key()].addFile(fc, func(_ uint32, s uint16) int { return slotKey(tt.famStart, tt.interval, famStart+int64(s)*srcInterval) },
-							func(k cellKey, v float64, s uint16) {
-								ok := originKey{tt.interval, k}
-								h.origins[ok] = append(h.origins[ok], origin{epoch: h.epoch, file: fileNo, at: famStart + int64(s)*srcInterval, v: v})
-							})
 					}
 					continue // nothing to judge until a rollup ran
 				case "rollup_cw":
@@ -484,6 +490,18 @@ func runC04(c *core.RunCtx) {
 						sim.Fault("parallel-rollup-trigger")
 					} else {
 						h.forAllSources(func(st kv.Store) { st.ForceRollup() })
+						if op.K == "rollup" && op.B == 1 && h.crashP == 0 && next < len(c.Plan.Ops) && c.Plan.Ops[next].K == "flush" {
+							// the next file of a source family is flushed while the rollup jobs run: it belongs to this
+							// job or to the next one, never to none (plans without process deaths: a flush in flight at
+							// a death may or may not have happened, the model of these histories has no such case)
+							fop := c.Plan.Ops[next]
+							next++
+							sim.Event("op %s (while the rollup runs)", fop.String())
+							sim.Fault("flush-during-rollup")
+							if !doFlush(fop) {
+								return
+							}
+						}
 						if op.K == "rollup2" {
 							sim.YieldNow()
 							h.forAllSources(func(st kv.Store) { st.ForceRollup() })
